@@ -177,6 +177,10 @@ impl Monitor for C06 {
                 fail(acc, "step_fee", format!("step {k}: fee {} != expected {expect_fee} (in {}, rate {}, remaining {}, reached_target {reached})", s.fee_amount, s.amount_in, s.total_fee_rate, s.amount_remaining_before));
             }
             let cut = (s.fee_amount as u128) * (pre.protocol_fee_rate as u128) / 10_000;
+            if pre.protocol_fee_rate > 2_500 || pre.fee_rate > 60_000 {
+                fail(acc, "rates_out_of_bounds", format!("the swap ran on a pool with protocol fee rate {} (limit 2500) and fee rate {} (limit 60000): the protocol's share of a fee would be {cut} of {}", pre.protocol_fee_rate, pre.fee_rate, s.fee_amount));
+                break;
+            }
             sum_cut += cut;
             if s.liquidity > 0 {
                 let lp = s.fee_amount as u128 - cut;
